@@ -979,3 +979,4 @@ Proof.
   unfold totals_eqb. rewrite !andb_true_iff, !ac_eqb_eq, N.eqb_eq. destruct a, b; cbn.
   split; [intros [[[-> ->] ->] ->]; reflexivity|intros [= -> -> -> ->]; auto].
 Qed.
+
